@@ -214,6 +214,20 @@ fn c05_switch(k: usize) {
     chk!("switch_item_only_replaces_one_slot", r.reservoir().len() == k);
     cov!("switch_item_can_be_skipped", !kept);
     cov!("switch_item_can_be_kept", kept);
+    // The item AFTER the switch item (two-step history from the real switch state skip_until = 0): once an item has been
+    // accepted in the skipping phase, the gap drawn with it governs the following items relative to the CURRENT position.
+    // For u <= 1 - 2p/(1-p), p = k/(4k+1), the gap floor(ln u / ln(1-p)) is >= 2 for ANY libm (ln u <= u-1,
+    // ln(1-p) >= -p/(1-p)), so the next item must be skipped — whether or not the switch item itself was forced in.
+    if kept {
+        let u = u_of_word(rng_last_u64());
+        let p = (k as f64) / ((4 * k + 1) as f64);
+        let band = u < 1.0 - 2.0 * p / (1.0 - p) - 0.02;
+        cov!("band_gap_two_after_switch", band);
+        if band {
+            r.add(300);
+            chk!("item_after_switch_skipped_when_gap_at_least_two", !r.reservoir().iter().any(|x| *x == 300));
+        }
+    }
     let _ = (after_last_reservoir_step, words_before);
 }
 harness!(c05_switch_k1, unwind 5, wmul_ln, { c05_switch(1) });
@@ -272,6 +286,13 @@ fn c05_gap_accepted(k: usize, i: usize) {
     if u > 1.0 / (1.0 + 2.0 * p) + 1e-9 && u < 1.0 - p / (1.0 - p) - 1e-9 {
         chk!("gap_one_skips_exactly_one_item", su2 == i + 2);
     }
+    // gap >= 2 for ANY libm when u <= 1 - 2q/(1-q), q = k/(i+1) the acceptance probability the code uses: the next item is
+    // skipped, measured from the CURRENT position i (not from a stale skip_until <= i).
+    let q = (k as f64) / ((i + 1) as f64);
+    if u < 1.0 - 2.0 * q / (1.0 - q) - 0.02 {
+        chk!("gap_two_or_more_skips_next_item", su2 >= i + 2);
+    }
+    cov!("band_gap_two_or_more", u < 1.0 - 2.0 * q / (1.0 - q) - 0.02);
     cov!("next_item_accepted", su2 <= i + 1);
     cov!("next_item_skipped", su2 >= i + 2);
     cov!("band_gap_one", u > 1.0 / (1.0 + 2.0 * p) + 1e-9 && u < 1.0 - p / (1.0 - p) - 1e-9);
